@@ -13,11 +13,13 @@ SPEC = {
                   "schedules_with_injected_cas_failure": 1000, "legitimate_false_adds": 1000,
                   "schedules_reaching_full": 1000, "queue_free_histories": 100, "lock_free_histories": 30,
                   "lock_try_lock_failures": 100,
-                  "enum_configs_exhausted": 8, "enum_runs": 3000},
+                  "enum_configs_exhausted": 8, "enum_runs": 3000,
+                  "enum_lock_configs_exhausted": 6, "enum_lock_runs": 1500},
         "thorough": {"queue_schedules": 2000000, "lock_schedules": 500000, "schedules_with_genuine_cas_failure": 100000,
                      "schedules_with_injected_cas_failure": 200000, "legitimate_false_adds": 200000,
                      "queue_free_histories": 10000, "lock_free_histories": 3000,
-                     "enum_configs_exhausted": 30, "enum_runs": 100000},
+                     "enum_configs_exhausted": 30, "enum_runs": 100000,
+                     "enum_lock_configs_exhausted": 20, "enum_lock_runs": 50000},
     },
     "engine": "E3 serialised schedule",
     "engines_used": ["E3 serialised schedule", "E2 history"],
@@ -41,7 +43,8 @@ SPEC = {
              "the sequence of (chosen thread, operation kind) at every scheduling point. Every 2000th case (100000th in the "
              "thorough tier) instead enumerates COMPLETELY, for one of 10 tiny configurations (capacity 1..3, 1..3 producers, "
              "<= 4 adds), every schedule reachable by running threads to completion or to a voluntary yield plus at most 2 "
-             "(thorough: 3) preemptions at any step to any other live thread (counters enum_*)."),
+             "(thorough: 3) preemptions at any step to any other live thread (counters enum_*); likewise six SpinLockMutex "
+             "configurations (2..3 threads x 1..2 lock/try_lock operations, counters enum_lock_*)."),
     "coverage_extra": {"exhaustive_subspaces": "bounded-preemption enumeration (preemption bound 2 quick / 3 thorough, sequentially consistent execution, no spurious CAS) of 10 tiny queue configurations; enum_configs_exhausted counts configurations whose bounded schedule space was enumerated completely in this run, enum_configs_capped those cut by the run budget; the top-level exhaustive flag stays false"},
     "assumptions": ASSUME_COMMON + [
         "a failed Add is legitimate iff (successful Adds started before it finished) - (elements taken by Consume calls that returned before it started) >= capacity; sound upper bound of the occupancy Add can have seen",
